@@ -340,6 +340,8 @@ fn chk_receive(g: &mut Gen) -> Result<(), String> {
                     (_, DecodeError::ControlMessage(ControlMessageError::InvalidPEC)) if pec_ok(&p) => return Err(format!("decode_packet({}) says InvalidPEC but the PEC is right", hex(&p))),
                     (_, DecodeError::ControlMessage(ControlMessageError::InvalidRequestDataLength)) if !(hdr_ok(&p) && p[8] & 0x7f == 0 && p.len() >= 12 && ctrl_fixed_len(&p) > 0 && ctrl_data_len(&p) != ctrl_fixed_len(&p) as isize) =>
                         return Err(format!("decode_packet({}) says InvalidRequestDataLength but the length is right", hex(&p))),
+                    (_, DecodeError::ControlMessage(ControlMessageError::Unknown)) if !(hdr_ok(&p) && p[8] & 0x7f == 0 && p.len() >= 13 && p[9] & 0x80 == 0 && p[11] > 5) =>
+                        return Err(format!("decode_packet({}) says Unknown control error but the packet is not a response with an unknown completion code", hex(&p))),
                     (_, DecodeError::ControlMessage(ControlMessageError::UnsuccessfulCompletionCode(cc))) if !(hdr_ok(&p) && p[8] & 0x7f == 0 && p.len() >= 13 && p[9] & 0x80 == 0 && p[11] != 0 && p[11] == (match cc { CompletionCode::Success => 0, CompletionCode::Error => 1, CompletionCode::ErrorInvalidData => 2, CompletionCode::ErrorInvalidLength => 3, CompletionCode::ErrorNotReady => 4, CompletionCode::ErrorUnsupportedCmd => 5 })) =>
                         return Err(format!("decode_packet({}) reports a completion code the packet does not carry", hex(&p))),
                     _ => {}
